@@ -594,6 +594,14 @@ func (e *Env) eval(st *State, fr *Frame, v ssa.Value) Val {
 	return Val{K: kUnit}
 }
 
+var wellKnownBigGlobals = map[string]int64{
+	"github.com/ethereum/go-ethereum/common.Big0": 0, "github.com/ethereum/go-ethereum/common.Big1": 1, "github.com/ethereum/go-ethereum/common.Big2": 2,
+	"github.com/ethereum/go-ethereum/common.Big3": 3, "github.com/ethereum/go-ethereum/common.Big32": 32, "github.com/ethereum/go-ethereum/common.Big256": 256,
+	"github.com/ethereum/go-ethereum/common.Big257": 257,
+	"github.com/ethereum/go-ethereum/params.DifficultyBoundDivisor": 2048, "github.com/ethereum/go-ethereum/params.GenesisDifficulty": 131072,
+	"github.com/ethereum/go-ethereum/params.MinimumDifficulty": 131072, "github.com/ethereum/go-ethereum/params.DurationLimit": 13,
+}
+
 // globals are modelled as immutable constants: a read-only cell per global.
 func (e *Env) globalPtr(st *State, g *ssa.Global) Val {
 	key := "g_" + g.Pkg.Pkg.Name() + "_" + g.Name()
@@ -604,6 +612,11 @@ func (e *Env) globalPtr(st *State, g *ssa.Global) Val {
 	if iv, ok := e.globalInit(st, g); ok {
 		v = iv
 		name = iv.T
+	} else if k, ok := wellKnownBigGlobals[g.Pkg.Pkg.Path()+"."+g.Name()]; ok && strings.HasPrefix(s, "Opt_") {
+		// *big.Int constants of go-ethereum (var X = big.NewInt(k); read from the pinned go-ethereum source)
+		e.trusted["go-ethereum *big.Int constants (common.Big0..Big256, params.*Difficulty*) have their source values"]++
+		v = Val{K: kTerm, Typ: et, Sort: s, T: fmt.Sprintf("(some_%s %d)", s, k)}
+		name = v.T
 	}
 	// package-level error sentinels and pointers created by constructors are non-nil
 	if strings.HasPrefix(s, "Opt_") {
@@ -647,6 +660,14 @@ func (e *Env) globalInit(st *State, g *ssa.Global) (Val, bool) {
 	}
 	et := g.Type().(*types.Pointer).Elem()
 	switch x := found.(type) {
+	case *ssa.Call:
+		// var X = big.NewInt(k): a pointer to the mathematical integer k
+		if f := x.Call.StaticCallee(); f != nil && f.String() == "math/big.NewInt" && len(x.Call.Args) == 1 {
+			if c, ok := x.Call.Args[0].(*ssa.Const); ok && c.Value != nil {
+				s := e.sortOfT(et)
+				return Val{K: kTerm, Typ: et, Sort: s, T: fmt.Sprintf("(some_%s %s)", s, intLit(c.Int64()))}, true
+			}
+		}
 	case *ssa.Const:
 		if e.sortOfT(et) == sStr || strings.HasPrefix(e.sortOfT(et), "(_ BitVec") || e.sortOfT(et) == sBool {
 			return e.constVal(st, x), true
@@ -1223,6 +1244,11 @@ func (e *Env) binop(st *State, op token.Token, a, b Val, rt types.Type, pos toke
 	}
 	if as == sInt {
 		switch op {
+		case token.QUO:
+			// only reachable from specifications (Go has no "/" on big.Int): Euclidean division
+			return termVal(rt, sInt, tApp("div", at, bt))
+		case token.REM:
+			return termVal(rt, sInt, tApp("mod", at, bt))
 		case token.ADD:
 			return termVal(rt, sInt, tApp("+", at, bt))
 		case token.SUB:
